@@ -30,7 +30,11 @@ Inductive op :=
 | OSGet (i : nat) (k : key)
 | OSHas (i : nat) (k : key)
 | OSIter (i : nat) (prefix start : okey)
-| OCompact (h : handle) (start limit : okey).
+| OCompact (h : handle) (start limit : okey)
+| OECompact (h : handle) (start limit : okey)        (* Compact forwarded to the engine: nil or error *)
+| OLit (i : nat) (h : handle) (prefix start : okey)  (* an iterator kept alive across later operations *)
+| OLNext (i : nat) (n : nat)                         (* up to n Next() calls on it *)
+| OLRel (i : nat).
 
 Inductive obs :=
 | BGet (v : option val)
@@ -39,6 +43,8 @@ Inductive obs :=
 | BReplay (l : list wop)
 | BNfp (n : nat)
 | BCompact (r : option (okey * okey))   (* None: the request never reached the base store *)
+| BCompactErr (ok : bool)
+| BLive (l : option (list (key * val)))   (* None: this drain is not predicted (see op_kills_lives) *)
 | BNone.                      (* the operation addressed something that does not exist *)
 
 Fixpoint set_nth {A} (n : nat) (x : A) (d : A) (l : list A) : list A :=
@@ -47,4 +53,25 @@ Fixpoint set_nth {A} (n : nat) (x : A) (d : A) (l : list A) : list A :=
   | O, _ :: l' => x :: l'
   | S n', [] => d :: set_nth n' x d []
   | S n', y :: l' => y :: set_nth n' x d l'
+  end.
+
+(* Live iterators.  An iterator that stays alive is predicted only while nothing it reads from has
+   been mutated in place: any put / delete / batch write ends the prediction for every live
+   iterator; Flush and DropNotFlushed keep it when [lsafe] holds (the stack has at most one
+   tree-bearing layer and its base is an engine, whose iterators are consistent snapshots: the
+   flushable's tree is only detached by Clear(), the nodes the iterator walks stay intact). *)
+Definition op_kills_lives (lsafe : bool) (o : op) : bool :=
+  match o with
+  | OPut _ _ _ | ODel _ _ | OBWrite _ => true
+  | OFlush _ | ODrop _ => negb lsafe
+  | _ => false
+  end.
+Definition lives := list (option (list (key * val))).
+Definition kill_lives (l : lives) : lives := map (fun _ => None) l.
+Definition lives_after (lsafe : bool) (o : op) (l : lives) : lives :=
+  if op_kills_lives lsafe o then kill_lives l else l.
+Definition live_next (l : lives) (i n : nat) : lives * obs :=
+  match nth i l None with
+  | Some items => (set_nth i (Some (skipn n items)) None l, BLive (Some (firstn n items)))
+  | None => (l, BLive None)
   end.
